@@ -36,14 +36,14 @@ def comp(d):
     return d
 
 
-def digest_result(res, ins):
-    """bit-exact digest of everything a caller can see of a result"""
+def digest_result(res, ins, values=None):
+    """bit-exact digest of everything a caller can see of a result (values: already computed data of a lazy DataArray)"""
     import pandas as pd
     if res is None:
         # in-place contract (zonal.apply): the result is what happened to the inputs
         return A._h("|".join(digest_result(x, []) for _r, x, _m in ins).encode())
     if isinstance(res, xr.DataArray):
-        v = np.asarray(comp(res.data))
+        v = np.asarray(comp(res.data)) if values is None else np.asarray(values)
         name = str(res.name)
         if getattr(res.data, "name", None) == res.name and res.name is not None:
             name = "<dask key>"        # xarray adopts the dask graph key as name when the function sets none; not raster content
@@ -142,6 +142,7 @@ def run_history(h):
     out = {"hid": h.get("hid", 0), "threads": THREADS, "numba_threads": os.environ.get("NUMBA_NUM_THREADS", ""),
            "init": hidden_state(), "events": [], "job": h}
     d0 = ["%s=%s/%s" % (name, A.deep_repr(f.__defaults__), A.deep_repr(f.__kwdefaults__)) for name, f in PUBLIC]
+    lazy = {}
     for c in h["calls"]:
         entry = CAT[c["f"]]
         # parameters: an explicit dict ("params", the one-parameter pairs of C11) or a catalogue variant
@@ -153,13 +154,31 @@ def run_history(h):
                 numba.set_num_threads(int(c["set_threads"]))
             hw = c.get("hw") or [A.H, A.W]
             ins = A.build_inputs(entry, c.get("dtype", "float64"), c.get("layout", "C"), c.get("backend", "numpy"), c.get("seed", 0),
-                                 h=hw[0], w=hw[1], p=p, finite=bool(c.get("finite")))
+                                 h=hw[0], w=hw[1], p=p, finite=bool(c.get("finite")), coordscale=c.get("coordscale", 1))
             fn = getattr(MODS[entry["mod"]], entry["attr"])
             args, kwargs = entry["kw"](A.public(p), [x for _r, x, _m in ins])
             with warnings.catch_warnings():
                 warnings.simplefilter("ignore")
                 res = fn(*args, **kwargs)
                 ev["digest"] = digest_result(res, ins)
+                if c.get("keep_lazy") and isinstance(res, xr.DataArray) and hasattr(res.data, "compute"):
+                    lazy[c["c"]] = res
+                if c.get("joint"):
+                    # JOINT compute: the lazy results of this call and of the named earlier calls are computed TOGETHER
+                    # (dask.compute(r1, r2, ...)): graph keys that collide between them would mix up their blocks.
+                    # One extra event per earlier call (its result as seen in the joint computation), then this one.
+                    import dask
+                    others = [k for k in c["joint"] if k in lazy]
+                    objs = [lazy[k] for k in others] + [res]
+                    vals = dask.compute(*[o.data for o in objs], **sched())
+                    for k, o, v in zip(others, objs, vals):
+                        e2 = {"c": k, "f": k.split("|")[0], "raised": False, "err": "", "digest": digest_result(o, [], values=v),
+                              "joint": True}
+                        e2.update(hidden_state())
+                        e2["defaults_changed_in"] = []
+                        out["events"].append(e2)
+                    ev["digest"] = digest_result(res, ins, values=vals[-1])
+                    ev["joint"] = True
         except Exception as ex:
             ev["raised"] = True
             ev["err"] = "%s: %s" % (type(ex).__name__, str(ex)[:300])
